@@ -50,3 +50,35 @@ End Facts.
 
 Lemma solver_safe_leaves ch : forallb is_var ch = true -> forallb solver_safe ch = true.
 Proof. induction ch as [|x xs IH]; cbn; auto. intros H. apply andb_true_iff in H. destruct H as [Hx H]. destruct x; [|discriminate]. cbn. auto. Qed.
+
+(* ---------- dict_by_id (the id -> entry dictionary built from flatten()) ---------- *)
+Lemma dict_put_in acc q r : In r (dict_put acc q) -> In r acc \/ r = q.
+Proof.
+  unfold dict_put. destruct (existsb _ acc).
+  - intros H. apply in_map_iff in H. destruct H as (x & E & Hx). destruct (String.eqb (id_of x) (id_of q)); subst; auto.
+  - intros H. apply in_app_or in H. destruct H as [H|[<-|[]]]; auto.
+Qed.
+Lemma dict_by_id_in l r : In r (dict_by_id l) -> In r l.
+Proof.
+  unfold dict_by_id. assert (G : forall acc, In r (fold_left dict_put l acc) -> In r acc \/ In r l).
+  { induction l as [|q qs IH]; intros acc H; cbn [fold_left] in H; [auto|].
+    destruct (IH _ H) as [H1|H1]; [|right; right; exact H1].
+    destruct (dict_put_in _ _ _ H1) as [H2| ->]; [auto|right; left; reflexivity]. }
+  intros H. destruct (G [] H) as [[]|H']. exact H'.
+Qed.
+Lemma dict_put_fresh acc q : ~ In (id_of q) (map id_of acc) -> dict_put acc q = (acc ++ [q])%list.
+Proof.
+  intros H. unfold dict_put. destruct (existsb _ acc) eqn:E; [|reflexivity].
+  exfalso. apply existsb_exists in E. destruct E as (x & Hx & Ex). apply String.eqb_eq in Ex.
+  apply H. rewrite <- Ex. apply in_map. exact Hx.
+Qed.
+(* a list without repeated ids is its own dictionary *)
+Lemma dict_by_id_nodup l : NoDup (map id_of l) -> dict_by_id l = l.
+Proof.
+  unfold dict_by_id. assert (G : forall acc, NoDup (map id_of (acc ++ l)) -> fold_left dict_put l acc = (acc ++ l)%list).
+  { induction l as [|q qs IH]; intros acc H; cbn [fold_left]; [rewrite app_nil_r; reflexivity|].
+    rewrite dict_put_fresh.
+    - rewrite IH; rewrite <- app_assoc; [reflexivity|exact H].
+    - rewrite map_app in H. cbn [map] in H. apply NoDup_remove_2 in H. intros Hin. apply H. apply in_or_app. auto. }
+  intros H. apply (G [] H).
+Qed.
